@@ -1354,7 +1354,7 @@ class Engine:
         if self.PROPERTY == "C08":
             depth = 2 if tier == "quick" else 3
             units += [{"gen": "exhaustive-prefix", "first": i, "depth": depth} for i in range(len(ALPHABET))]
-        n = {"C08": (60000, 1500000), "C09": (50000, 1200000), "C20": (40000, 800000)}[self.PROPERTY]
+        n = {"C08": (60000, 1500000), "C09": (40000, 1200000), "C20": (30000, 800000)}[self.PROPERTY]
         import os
         count = int(os.environ.get("VERIF_HISTORIES", "0")) or (n[0] if tier == "quick" else n[1])
         units += [{"gen": "seeded"}] * count
